@@ -41,6 +41,6 @@ INVARIANT ReportedKeyIsSetupKey
 INVARIANT Oblivious
 INVARIANT ExportKeySeparated
 INVARIANT NoSecretOnWire
-INVARIANT EmitAtBound
+INVARIANT EmitAtBoundOrRefusal
 CONSTRAINT Bound
 CHECK_DEADLOCK FALSE
